@@ -219,6 +219,17 @@ func GenGenuine(r *rand.Rand, w *World, o GenOpts) *Genuine {
 	}
 	g.Rec = rec
 	g.Style = sim.RandomStyle(r)
+	if g.Style.DeclareDS {
+		// signatures in this layout rely on the root's xmlns:ds declaration
+		if rec.Sig != nil && rec.Sig.DSPrefix == "" && !rec.Sig.DSDefault {
+			rec.Sig.NoNSDecl = true
+		}
+		for _, a := range rec.Assertions {
+			if a.Sig != nil && a.Enc == nil && a.Sig.DSPrefix == "" && !a.Sig.DSDefault {
+				a.Sig.NoNSDecl = true
+			}
+		}
+	}
 	if !o.Values {
 		g.Style.TextTricks = 0
 	}
